@@ -148,6 +148,8 @@ def build(case):
                         v = (['good', 'mua', 'noise'] if case['seed'][2] % 6 != 3 else ['m\u00e4\u00dfig', 'gut\u2713', 'noise'])[int(rng.integers(0, 3))] if 'KSLabel' in t else \
                             (repr(float(np.round(rng.uniform(0, 100), 3))) if rng.random() < 0.8 else ['0.0', '0'][int(rng.integers(0, 2))])
                         rows.append('%d\t%s' % (c, v))
+                if case['seed'][2] % 6 == 2 and len(rows) > 2:
+                    rows = rows[:1] + [rows[i_] for i_ in (1 + rng.permutation(len(rows) - 1)).tolist()]      # rows in no particular order of cluster id
                 s.tsv[t] = '\n'.join(rows) + '\n'
                 if rng.random() < 0.15:
                     s.tsv[t] = s.tsv[t].replace('\t', ',')       # a comma-separated table under the .tsv name (the delimiter is sniffed)
